@@ -5,27 +5,64 @@
 (* every entry is replayed on the real schemes with random keys and hashes.  *)
 EXTENDS Integers, Sequences, FiniteSets, TLC, Json
 
-CONSTANTS Scheme, Key, Hash, Mangle   \* Mangle: ways of damaging a signature / key
+(*                                                                           *)
+(* The verifier is also modelled as a long-lived OBJECT (chaincore/client    *)
+(* Client, embedded in node.Node): it has an exported public-key field       *)
+(* (ofield) and a decoded signature scheme (okey = the key the scheme really *)
+(* verifies with).  The object starts with an EARLIER identity (pk # vk) and *)
+(* becomes the vk client in one of the Ways the repository does it:          *)
+(*   "set"    SetPublicKey(vk)                 field and scheme together     *)
+(*   "scheme" SetSignatureScheme(scheme of vk) field and scheme together     *)
+(*   "copy"   Copy(client of vk)               field and scheme together     *)
+(*   "decode" a serialized record of the vk client is decoded INTO the       *)
+(*            object (+ ComputeProperties): only the field (and id) change   *)
+(*   "assign" direct assignment c.PublicKey = vk (n.PublicKey = v.PublicKey) *)
+(* after the last two the scheme is stale until the refresh idiom            *)
+(* c.SetPublicKey(c.PublicKey) (node.Pool.AddNode, lazy decode paths) runs.  *)
+(* Design requirement: when the object verifies, its scheme is the scheme of *)
+(* its public-key field (ObjectBound), hence it verifies exactly vk's        *)
+(* signatures (ObjectExact).                                                 *)
+CONSTANTS Scheme, Key, Hash, Mangle,  \* Mangle: ways of damaging a signature / key
+          Way                          \* how the verifying client object came to hold vk
 
-VARIABLES phase, scheme, sk, sh, vk, vh, mg, idkey, idclaim, hist
-vars == <<phase, scheme, sk, sh, vk, vh, mg, idkey, idclaim, hist>>
+VARIABLES phase, scheme, sk, sh, vk, vh, mg, idkey, idclaim, hist,
+          way, pk,          \* the object's way to vk, its previous key
+          ofield, okey,     \* the object: public-key field, key of its decoded scheme
+          ostage            \* "old" (still the earlier identity) | "stale" (field replaced, scheme not) | "fresh"
+vars == <<phase, scheme, sk, sh, vk, vh, mg, idkey, idclaim, hist, way, pk, ofield, okey, ostage>>
+claim == <<scheme, sk, sh, vk, vh, idkey, idclaim, way, pk>>
 
 Init == /\ phase = "start" /\ scheme \in Scheme /\ sk \in Key /\ sh \in Hash /\ vk \in Key /\ vh \in Hash
         /\ mg = "none" /\ idkey \in Key /\ idclaim \in Key /\ hist = <<>>
+        /\ way \in Way /\ pk \in Key \ {vk} /\ ofield = pk /\ okey = pk /\ ostage = "old"
 Sign == phase = "start" /\ phase' = "signed" /\ hist' = Append(hist, "Sign")
-        /\ UNCHANGED <<scheme, sk, sh, vk, vh, mg, idkey, idclaim>>
+        /\ UNCHANGED <<claim, mg, ofield, okey, ostage>>
 Damage(m) == phase = "signed" /\ mg = "none" /\ m # "none" /\ mg' = m /\ hist' = Append(hist, m)
-        /\ UNCHANGED <<phase, scheme, sk, sh, vk, vh, idkey, idclaim>>
-Check == phase = "signed" /\ phase' = "checked" /\ hist' = Append(hist, "Verify")
-        /\ UNCHANGED <<scheme, sk, sh, vk, vh, mg, idkey, idclaim>>
-Next == Sign \/ (\E m \in Mangle : Damage(m)) \/ Check
+        /\ UNCHANGED <<phase, claim, ofield, okey, ostage>>
+\* the object becomes the vk client: field and scheme together, or the field alone
+Rekey == /\ ostage = "old" /\ way \in {"set", "scheme", "copy"}
+         /\ ofield' = vk /\ okey' = vk /\ ostage' = "fresh" /\ hist' = Append(hist, way)
+         /\ UNCHANGED <<phase, claim, mg>>
+Repopulate == /\ ostage = "old" /\ way \in {"decode", "assign"}
+              /\ ofield' = vk /\ ostage' = "stale" /\ hist' = Append(hist, way)
+              /\ UNCHANGED <<phase, claim, mg, okey>>
+\* c.SetPublicKey(c.PublicKey): the scheme is rebuilt from the field, whatever the field was set by
+Refresh == /\ ostage = "stale" /\ okey' = ofield /\ ostage' = "fresh" /\ hist' = Append(hist, "Refresh")
+           /\ UNCHANGED <<phase, claim, mg, ofield>>
+Check == phase = "signed" /\ ostage = "fresh" /\ phase' = "checked" /\ hist' = Append(hist, "Verify")
+        /\ UNCHANGED <<claim, mg, ofield, okey, ostage>>
+Next == Sign \/ (\E m \in Mangle : Damage(m)) \/ Rekey \/ Repopulate \/ Refresh \/ Check
 Spec == Init /\ [][Next]_vars
 
 Verify == sk = vk /\ sh = vh /\ mg = "none"
+ObjVerify == sk = okey /\ sh = vh /\ mg = "none"      \* what the object's scheme decides
 IdOK == idkey = idclaim
 \* the property on the model: soundness and completeness of Verify
 Exact == phase = "checked" => (Verify <=> (sk = vk /\ sh = vh /\ mg = "none"))
+\* ... and of the long-lived object: it verifies with the scheme of its own public key, i.e. exactly vk's signatures
+ObjectBound == ostage = "fresh" => (okey = ofield /\ ofield = vk)
+ObjectExact == phase = "checked" => (ObjVerify <=> Verify)
 GPrint == phase = "checked" =>
   PrintT(<<"BEHAVIOUR", ToJson([scheme |-> scheme, sk |-> sk, sh |-> sh, vk |-> vk, vh |-> vh, mg |-> mg,
-                                 idkey |-> idkey, idclaim |-> idclaim])>>)
+                                 idkey |-> idkey, idclaim |-> idclaim, way |-> way, pk |-> pk])>>)
 =============================================================================
